@@ -39,6 +39,8 @@ type Router struct {
 	statePath   string
 	services    *ServiceMap
 	serviceLock sync.RWMutex
+
+	snapshotLock sync.Mutex
 }
 
 type ServiceDescription struct {
@@ -339,6 +341,11 @@ func (r *Router) findOrCreateService(name string, options ServiceOptions, target
 }
 
 func (r *Router) saveStateSnapshot() error {
+	// Writers are serialised, so that the snapshot written last is also the
+	// most recent one.
+	r.snapshotLock.Lock()
+	defer r.snapshotLock.Unlock()
+
 	simYield("snapshot.begin", r)
 	services := []*Service{}
 	r.withReadLock(func() error {
@@ -348,16 +355,27 @@ func (r *Router) saveStateSnapshot() error {
 		return nil
 	})
 
+	// Write to a temporary file and rename it into place, so that the state
+	// file is always a complete snapshot, even if we are killed part-way.
+	tmpPath := r.statePath + ".tmp"
+
 	simYield("snapshot.beforeCreate", r)
-	f, err := os.Create(r.statePath)
+	f, err := os.Create(tmpPath)
 	if err != nil {
 		return err
 	}
 
 	simYield("snapshot.created", r)
 	err = json.NewEncoder(f).Encode(services)
+	if closeErr := f.Close(); err == nil {
+		err = closeErr
+	}
+	if err == nil {
+		err = os.Rename(tmpPath, r.statePath)
+	}
 	if err != nil {
 		slog.Error("Unable to save state", "error", err, "path", r.statePath)
+		os.Remove(tmpPath)
 		return err
 	}
 
